@@ -19,6 +19,7 @@
 #include <unistd.h>
 
 #include <algorithm>
+#include <cstdlib>
 #include <stdexcept>
 
 namespace sim {
@@ -258,7 +259,7 @@ void end_run(bool remove) {
     State& s = S();
     s.active = false; s.clk_on = false; s.pass = true;
     if (::chdir("/")) {}
-    if (remove && !s.root.empty()) remove_tree(s.root.substr(0, s.root.size() - 1));
+    if (remove && !s.root.empty() && !getenv("VERIF_KEEP")) remove_tree(s.root.substr(0, s.root.size() - 1));
     s.pass = false;
 }
 void set_op(int op) { S().op = op; }
